@@ -374,3 +374,25 @@ add('C15.valid_check', 'C15', (TIG, "          transform_type == qtyping.QuantTr
     'C15.R4', 'ADD_DEQUANTIZE no longer counts as quantizing the tensor in the validity check')
 add('C15.twin_setdefault', 'C15', (FBU, "        if tensor.buffer not in buffer_to_tensor_map:\n          buffer_to_tensor_map[tensor.buffer] = []\n        buffer_to_tensor_map[tensor.buffer].append(tensor)",
     "        buffer_to_tensor_map.setdefault(tensor.buffer, []).append(tensor)"), (), 'setdefault idiom, every occurrence still listed', kind='twin')
+
+# ---------------------------------------------------------------------- C16
+MMF = 'model_modifier.py'
+add('C16.zero_placeholder', 'C16', (MMF, "        buffer.offset = 1\n        buffer.size = 1", "        buffer.offset = 0\n        buffer.size = 0"), 'C16.R3', 'placeholder offset/size 0: flatbuffer table grows between the passes', control=True)
+add('C16.pad8', 'C16', (MMF, "      dummy_bytearray += buffer_data\n      while len(dummy_bytearray) % 16:", "      dummy_bytearray += buffer_data\n      while len(dummy_bytearray) % 8:"), ('C16.R1', 'C16.R2'), 'pass 1 pads constants to 8 bytes')
+add('C16.no_pad_pass2', 'C16', (MMF, "      model_bytearray += buffer_data\n      while len(model_bytearray) % 16:\n        model_bytearray += b'\\0'\n", "      model_bytearray += buffer_data\n"), 'C16.R2', 'padding dropped in the emitting pass only')
+add('C16.no_initial_pad', 'C16', (MMF, "    # calculate the correct buffer size and offset\n    while len(dummy_bytearray) % 16:\n      dummy_bytearray += b'\\0'\n", "    # calculate the correct buffer size and offset\n"),
+    ('C16.R1', 'C16.R2'), 'first constant placed right after the unpadded flatbuffer', control=True)
+add('C16.elif_no_append', 'C16', (MMF, "      elif isinstance(buffer.data, np.ndarray):\n        self._constant_map.append(buffer.data.tobytes())\n        buffer_size += len(buffer.data.tobytes())",
+    "      elif isinstance(buffer.data, np.ndarray):\n        if buffer.data.size:\n          self._constant_map.append(buffer.data.tobytes())\n        buffer_size += len(buffer.data.tobytes())"),
+    'C16.R4', 'empty ndarray buffers get no constant-map entry: later indices shift')
+add('C16.size_of_other', 'C16', (MMF, "      buffer.size = len(buffer_data)\n", "      buffer.size = len(dummy_bytearray)\n"), 'C16.R1', 'size recorded is not the length of the appended constant')
+add('C16.threshold', 'C16', (MMF, "    if constant_buffer_size > 2**31 - 2**20:", "    if constant_buffer_size > 2**32 - 2**20:"), 'C16.R5', 'threshold above the flatbuffer limit')
+add('C16.skip_small', 'C16', (MMF, "    for buffer_idx, _ in enumerate(quantized_model.buffers):\n      buffer_data = self._constant_map[buffer_idx]\n      if buffer_data is None:\n        continue",
+    "    for buffer_idx, _ in enumerate(quantized_model.buffers):\n      buffer_data = self._constant_map[buffer_idx]\n      if not buffer_data:\n        continue"), 'C16.R2', 'emitting pass skips empty constants that the first pass counted')
+add('C16.cached_modifier', 'C16', [(QZ, "    self._result: QuantizationResult = QuantizationResult([{}], None)", "    self._model_modifier = model_modifier.ModelModifier(self.float_model)\n    self._result: QuantizationResult = QuantizationResult([{}], None)"),
+    (QZ, "    model_modifier_instance = model_modifier.ModelModifier(self.float_model)\n    return model_modifier_instance.modify_model(quant_params)", "    return self._model_modifier.modify_model(quant_params)")],
+    'C16.R4', 'ModelModifier cached on the Quantizer: stale constant map (seeded a2-C16)')
+add('C16.twin_reset_map', 'C16', [(QZ, "    self._result: QuantizationResult = QuantizationResult([{}], None)", "    self._model_modifier = model_modifier.ModelModifier(self.float_model)\n    self._result: QuantizationResult = QuantizationResult([{}], None)"),
+    (QZ, "    model_modifier_instance = model_modifier.ModelModifier(self.float_model)\n    return model_modifier_instance.modify_model(quant_params)", "    return self._model_modifier.modify_model(quant_params)"),
+    (MMF, "    buffer_size = 0\n    for buffer in quantized_model.buffers:", "    buffer_size = 0\n    self._constant_map = []\n    for buffer in quantized_model.buffers:")],
+    (), 'cached ModelModifier is fine for C16 once the constant map is reset per call', kind='twin')
